@@ -6,7 +6,7 @@ import time
 import traceback
 
 
-class TaskTimeout(Exception):
+class TaskTimeout(BaseException):
     pass
 
 
